@@ -11,7 +11,7 @@ TABLE = {
         note='Assumes lexical name resolution, CPython semantics; the truth of match conditions and legacy modifier arithmetic are not decided.',
         tech='CFG control dependence + reaching definitions + who-may-reorder scan over the call graph'),
     'C02': dict(
-        text='Static check that tag collection is control-dependent on the match flag only, accumulates monotonically in both modes, passes lower()/strip/non-empty, that every winner selection filters on has-category, and that tags survive every return of normalize_merchant and reach the transaction dict in all three parsers. Tags items are stored by the loader as written (no case fold on {expression} text); values produced by a generator helper are judged at their yield. Candidate filters are read as the conjuncts every candidate satisfies; a legacy result without match info is returned only when no tag was collected.',
+        text='Static check that tag collection is control-dependent on the match flag only, accumulates monotonically in both modes, passes lower()/strip/non-empty, that every winner selection filters on has-category, and that tags survive every return of normalize_merchant and reach the transaction dict in all three parsers. Tags items are stored by the loader as written (no case fold on {expression} text); values produced by a generator helper are judged at their yield. Candidate filters are read as the conjuncts every candidate satisfies; a legacy result without match info is returned only when no tag was collected. The text of a tags: line is split into items as written.',
         note='Values of {expr} tags are not decided.',
         tech='control dependence + def-use provenance on tag accumulators'),
     'C03': dict(
@@ -39,7 +39,7 @@ TABLE = {
         note='RecursionError/MemoryError out of scope; raising-primitive table is the trusted base.',
         tech='interprocedural exception-escape analysis + handler coverage at 13 call sites'),
     'C09': dict(
-        text='Selection idiom of the most_specific branch (max over candidates in rule order, first of equal keys), shape and provenance of the 4-tuple key, keyword tables agree with the language, structural quantities computed from structure, rule_mode plumbing. The winner of a field is chosen among rules that provide that field.',
+        text='Selection idiom of the most_specific branch (max over candidates in rule order, first of equal keys), shape and provenance of the 4-tuple key, keyword tables agree with the language, structural quantities computed from structure, rule_mode plumbing. The winner of a field is chosen among rules that provide that field. The candidates of one field never depend on the winner of another.',
         note='Ranking arithmetic on concrete rule sets not decided.',
         tech='idiom matching + provenance of key components + table agreement'),
     'C10': dict(
@@ -51,7 +51,7 @@ TABLE = {
         note='Report contents as values not decided; cmd_run cannot be executed by the suite, analysis is source-only.',
         tech='def-use chains across functions + CFG exit analysis of the source loop'),
     'C12': dict(
-        text='No unbound names in analyzer/report functions; script-safe embedding of the JSON data; placeholder replacement discipline; key functions injective or collision-handled; one source for headline figures; field coverage between analyzer writer and report reader. Finding keys of the id helpers include the sanitiser\'s own operations; formatting wrappers pass the amount unchanged; the report builders change nothing they did not create. Every rewrite of the serialised data is another JSON spelling of the same text. Each headline figure is printed under its own label in every format; per-category type totals classify a transaction by its own tags.',
+        text='No unbound names in analyzer/report functions; script-safe embedding of the JSON data; placeholder replacement discipline; key functions injective or collision-handled; one source for headline figures; field coverage between analyzer writer and report reader. Finding keys of the id helpers include the sanitiser\'s own operations; formatting wrappers pass the amount unchanged; the report builders change nothing they did not create. Every rewrite of the serialised data is another JSON spelling of the same text. Each headline figure is printed under its own label in every format; per-category type totals classify a transaction by its own tags. Type totals are accumulated transaction by transaction.',
         note='HTML/JSON parser round trip (library behaviour) and text layout not decided.',
         tech='symbol-table analysis + text-template/sanitiser provenance'),
     'C13': dict(
@@ -60,7 +60,7 @@ TABLE = {
         tech='two front ends -> common decision-tree normal form, structural equality',
         level='translation_validation'),
     'C14': dict(
-        text='Literal-context escaping of values interpolated into generated rule text, operator tables of modifier_parser / evaluators / _modifier_to_expr agree, per-operator meaning agrees, writer domain within reader domain, the two converters build the same expression. Every loaded CSV rule reaches the converter (no list rebuilt in between). The migration writes in the encoding the loader reads.',
+        text='Literal-context escaping of values interpolated into generated rule text, operator tables of modifier_parser / evaluators / _modifier_to_expr agree, per-operator meaning agrees, writer domain within reader domain, the two converters build the same expression. Every loaded CSV rule reaches the converter (no list rebuilt in between). The migration writes in the encoding the loader reads. Thresholds are written into generated rules without format specs or rounding.',
         note='Regex semantics beyond the quoting layer not decided.',
         tech='text-template hole analysis + operator-table agreement + normal-form comparison'),
     'C15': dict(
@@ -68,7 +68,7 @@ TABLE = {
         note='Resumability of the half-done layout migration and torn writes not decided.',
         tech='effect-sequence extraction along the CFG + typestate automaton'),
     'C16': dict(
-        text='Sibling cross-check of cmd_run / cmd_explain / cmd_discover pipelines (feature vectors of loading, supplemental handling, parse_generic_csv keywords), one decision procedure reachable from each command, the Unknown literal contract. One place (load_config) decides the rules file; explain matches the amount it was given. A merchant found by a looser match is explained only where the exact name has been tried and failed. Inline modifiers are consulted under the same condition by explain and by the classifier; discover\'s totals are not computed from the list cut to --limit.',
+        text='Sibling cross-check of cmd_run / cmd_explain / cmd_discover pipelines (feature vectors of loading, supplemental handling, parse_generic_csv keywords), one decision procedure reachable from each command, the Unknown literal contract. One place (load_config) decides the rules file; explain matches the amount it was given. A merchant found by a looser match is explained only where the exact name has been tried and failed. Inline modifiers are consulted under the same condition by explain and by the classifier; discover\'s totals are not computed from the list cut to --limit. Legacy patterns are searched with the same flags, and supplemental data is loaded under the same conditions, by explain / discover as by up.',
         note='Output formatting not decided.',
         tech='call-graph reachability + keyword-provenance feature vectors, contradiction rule'),
     'C17': dict(
@@ -76,7 +76,7 @@ TABLE = {
         note='The full metamorphic law over all files not decided.',
         tech='CFG path/dominance rules + handler audit'),
     'C18': dict(
-        text='Positions stored from enumerate() unmodified, rejections dominate stores/construction, inspect writer tokens are accepted by the reader regex (constant evaluation of source literals), name agreement in the suggestion loop. Every date format the detector can emit is free of commas and braces; sign flags are only written for the amount field. The four rejections are recognised by the guards of their raise statements; a header gives its index to at most one column of the detector. The suggestion range is only ever widened.',
+        text='Positions stored from enumerate() unmodified, rejections dominate stores/construction, inspect writer tokens are accepted by the reader regex (constant evaluation of source literals), name agreement in the suggestion loop. Every date format the detector can emit is free of commas and braces; sign flags are only written for the amount field. The four rejections are recognised by the guards of their raise statements; a header gives its index to at most one column of the detector. The suggestion range is only ever widened. The description template reaches the FormatSpec as written.',
         note='Header keyword detection on real files not decided.',
         tech='dominance + provenance + regex-literal writer/reader agreement'),
     'C19': dict(
